@@ -48,6 +48,18 @@ def main():
             {"name": "hypothesis", "path": "/verif/vd", "serves_properties": built,
              "kind_free_text": "property-based testing: generated cases / rule-based state machines, explicit "
                                "reference oracles, shrinking to a JSON replay file"},
+            {"name": "crash-enumeration", "path": "/verif/vd/crash.py", "serves_properties": ["C15"],
+             "kind_free_text": "forked child killed with os._exit before the n-th filesystem-mutating CPython audit "
+                               "event; every n enumerated per Hypothesis-generated scenario"},
+            {"name": "schedule-control", "path": "/verif/vd/sched.py", "serves_properties": ["C16"],
+             "kind_free_text": "cooperative scheduler: exactly one registered writer thread runs, switches at audit-event "
+                               "and stat yield points follow a Hypothesis-generated schedule"},
+            {"name": "fault-injection", "path": "/verif/vd/faults.py", "serves_properties": ["C04", "C11", "C12", "C18"],
+             "kind_free_text": "os.replace/rename/link/symlink patched for the duration of a transfer: EIO for ids in the "
+                               "generated fault plan, BaseException abort before the k-th placement, monitor after each"},
+            {"name": "atheris", "path": "/verif/vd/props/c14_booster.py", "serves_properties": ["C14"],
+             "kind_free_text": "optional coverage-guided booster (libFuzzer via atheris) in the thorough tier; Hypothesis "
+                               "remains the deciding engine"},
         ],
         "checks": checks,
         "notes": "One runner (./check <ID> --tier quick|thorough [--replay FILE]); VERIF_SEED honoured; "
